@@ -90,6 +90,7 @@ pub fn run(job: &Value) {
         let (mut calls, mut pairs) = (0u64, 0u64);
         let mut not_sync = 0u64;
         let dbg0 = s.debug();
+        let full0 = s.debug_full();
         let snapshot = s.clone_box();
         let rebuilt = subject(case).expect("rebuild");
         let cloned = s.clone_box();
@@ -156,8 +157,53 @@ pub fn run(job: &Value) {
             });
             calls += 10_000;
             tick();
-            if s.debug() != dbg0 {
-                rep.viol("debug_changed_by_sampling", json!({"before": dbg0, "after": s.debug()}));
+            if s.debug() != dbg0 || s.debug_full() != full0 {
+                rep.viol("debug_changed_by_sampling", json!({"before": full0.chars().take(400).collect::<String>(), "after": s.debug_full().chars().take(400).collect::<String>()}));
+            }
+            // clones: an unsampled clone, a sampled clone and a clone taken after sampling all print like the
+            // original, and sampling a fresh clone does not change what it prints
+            let late = s.clone_box();
+            for (name, c) in [("clone taken before sampling, never sampled", &snapshot), ("clone sampled 200 x seeds times", &cloned), ("clone taken after sampling", &late)] {
+                if c.debug_full() != full0 {
+                    rep.viol("clone_prints_differently", json!({"which": name, "original": full0.chars().take(400).collect::<String>(), "clone": c.debug_full().chars().take(400).collect::<String>()}));
+                    break;
+                }
+                if let Some(false) = s.eq_dyn(c.as_ref()) {
+                    rep.viol("clone_not_equal", json!({"which": name}));
+                    break;
+                }
+            }
+            {
+                let before = late.debug_full();
+                let mut r = srng(mix(&[vseed, idx as u64, 0xE2]));
+                let _ = guarded(|| {
+                    for _ in 0..100 {
+                        late.call_hash(&mut r);
+                    }
+                });
+                calls += 100;
+                if late.debug_full() != before {
+                    rep.viol("debug_changed_by_sampling", json!({"which": "clone", "before": before.chars().take(400).collect::<String>(), "after": late.debug_full().chars().take(400).collect::<String>()}));
+                }
+            }
+            // the same parameters through other input representations: equal value, equal print, equal samples
+            for (name, alt) in s.alt_builds() {
+                let mut ra = srng(mix(&[vseed, idx as u64, 0xA17]));
+                let mut rb = srng(mix(&[vseed, idx as u64, 0xA17]));
+                let ha = guarded(|| (0..64).map(|_| alt.call_hash(&mut ra)).collect::<Vec<u64>>());
+                let hb = guarded(|| (0..64).map(|_| rebuilt.call_hash(&mut rb)).collect::<Vec<u64>>());
+                calls += 128;
+                pairs += 64;
+                let same_samples = match (ha, hb) {
+                    (Caught::Ok(a), Caught::Ok(b)) => a == b && ra.count == rb.count,
+                    _ => true,
+                };
+                let same_print = alt.debug_full() == full0;
+                let same_value = s.eq_dyn(alt.as_ref()) != Some(false);
+                if !(same_samples && same_print && same_value) {
+                    rep.viol("alt_construction_differs", json!({"route": name, "same_samples": same_samples, "same_print": same_print, "same_value": same_value}));
+                    break;
+                }
             }
             if let Some(false) = s.eq_dyn(snapshot.as_ref()) {
                 // NaN parameters make == false legitimately; none of the envelope cases has NaN fields
